@@ -342,7 +342,7 @@ var phaseOf = map[string]string{
 	"put.body_done": "body-copied", "part.body_done": "body-copied", "cmp.assembled": "body-copied", "cmp.validated": "validated",
 	"put.attrs_done": "attrs-written", "part.attrs_done": "attrs-written", "cmp.attrs_done": "attrs-written",
 	"link.begin": "attrs-written", "link.removed": "attrs-written", "link.prelink": "attrs-written", "link.eexist": "attrs-written",
-	"link.prerename": "attrs-written",
+	"link.prerename": "attrs-written", "link.templinked": "attrs-written",
 	"link.linked": "published", "link.renamed": "published", "put.linked": "published", "cmp.linked": "published", "part.linked": "published",
 	"put.tags_done": "post-steps", "put.hold_done": "post-steps", "put.done": "post-steps", "cmp.cleaned": "post-steps",
 	"del.begin": "before-first-step", "del.stat": "before-first-step", "del.removed": "name-removed", "del.attrs_removed": "attrs-removed",
@@ -390,6 +390,7 @@ func C11(c *core.Ctx, replay string) {
 
 	var lines []any
 	var meta []crashLine
+	dryFailed := 0
 	for ci, k := range configs {
 		for _, op := range crashOps {
 			if only != nil && (only.Config != k.String() || only.Op != op.name) {
@@ -417,8 +418,12 @@ func C11(c *core.Ctx, replay string) {
 			r := w.run(op, cl, "op")
 			g.Stop()
 			if !r.OK() {
-				c.Inconclusive("%v %s dry run failed: %v", k, op.name, r)
-				return
+				// the operation fails without any kill: not a crash matter (other properties judge
+				// it); this operation type cannot be explored, the others still are
+				c.Drift("%v %s: dry run answered %v; operation type skipped", k, op.name, r)
+				dryFailed++
+				w.Close()
+				continue
 			}
 			hits := readHits(logPath, "op")
 			w.Close()
@@ -490,9 +495,10 @@ func C11(c *core.Ctx, replay string) {
 		}
 	}
 	if len(lines) == 0 {
-		c.Inconclusive("nothing executed")
+		c.Inconclusive("nothing executed (%d dry runs failed)", dryFailed)
 		return
 	}
+	c.Extra["operation_types_skipped_because_dry_run_failed"] = dryFailed
 	c.Sample(meta[len(meta)/2])
 	bad, v, res, err := tlc.ValidateLinesV(c.Scratch, "LinKeyTrace", lines, nil)
 	if err != nil {
